@@ -1753,3 +1753,48 @@ theorem runPair_last_type (init : Option PairDesc) (es : List PairEvent) (b : Na
   exact key rest _ hrest rfl
 
 end Docstring
+
+/-! ## 14. the literal block after the first paragraph of a list item or field -/
+namespace Epytext
+
+/-- once the indentation of the item's paragraph is known it never changes -/
+theorem listartLoop_some (b c : Nat) : ∀ (ls : List (Line × Bool)) (n : Nat) (dc : Bool),
+    (listartLoop b ls n (some c) dc).2 = some c := by
+  intro ls
+  induction ls with
+  | nil => intro n dc; rfl
+  | cons x xs ih =>
+    intro n dc
+    obtain ⟨l, isB⟩ := x
+    simp only [listartLoop]
+    split
+    · rfl
+    · split
+      · rfl
+      · split
+        · rfl
+        · split
+          · rfl
+          · split
+            · rfl
+            · exact ih _ _
+
+/-- **a first paragraph that wraps fixes the indentation of the literal block**: when the line after the
+bullet line continues the paragraph (not blank, indented at least like the bullet, no bullet of its own, the
+bullet line does not end with `::`), the paragraph's indentation — from which the literal block after
+`::` is measured — is the indentation of that continuation line, whatever follows -/
+theorem wrapped_item_para_indent (b : Nat) (l : Line) (rest : List (Line × Bool)) (n : Nat)
+    (hblank : indentOf l ≠ l.length) (hdeep : ¬ indentOf l < b) :
+    (listartLoop b ((l, false) :: rest) n none false).2 = some (indentOf l) := by
+  simp only [listartLoop, hblank, hdeep, if_false, Bool.false_eq_true]
+  exact listartLoop_some b (indentOf l) rest (n + 1) _
+
+/-- non-vacuity: a two-line first paragraph ending with `::`, a literal block, then a second paragraph of the
+same item; the block is measured from the continuation line (indentation 4), so its lines lose exactly 4 blanks
+and the paragraph that follows (indentation 4) ends it -/
+example :
+    itemLiteral ["  - first line".toList, "    goes on::".toList, "".toList, "        x = 1".toList, "".toList, "    after".toList]
+      [true, false, false, false, false, false] 0 2 4 = some ("    x = 1".toList, 4) := by
+  decide
+
+end Epytext
